@@ -1286,7 +1286,10 @@ PRINTED = []
 
 
 def _quiet_print(*a, **k):
-    """print() of the pyttb modules: recorded, not written (formatting is not the subject)"""
+    """print() of the pyttb modules: recorded, not written (formatting is not the subject); prints into a file
+    (export_data writes its headers that way) go through"""
+    if k.get("file") is not None:
+        return print(*a, **k)
     if len(PRINTED) < 1000:
         PRINTED.append(a)
 
